@@ -83,7 +83,7 @@ Check C13_error_span_sound_any_input :
     exists pre rest, s = append pre rest /\ sp = from_machine (mkin rest (adv_str pre pos0)).
 Print Assumptions C13_error_span_sound_any_input.
 
-(** ... and the lexer with both resets (parse.rs at the pinned commit) violates it: after the
+(** ... and the lexer with both resets (parse.rs before the repair 10a4ba7) violates it: after the
     escaped dot, [<FOO>] is reported at 1:3 instead of 1:10. *)
 Theorem C13_refuted_after_escape :
   parse_with (mkcfg true true) "cmd a\.b <FOO>;"
